@@ -168,7 +168,28 @@ def scZeroWorkers : Scenario where
   scripts := [[.start, .submit leaf, .shutdown, .waitComplete, .waitZero]]
   moves := startMoves 0 ++ [.cl 0, .cl 0, .cl 0, .cl 0, .disp, .disp] ++ shutdownMoves 0 0 ++ [.cl 0, .cl 0, .cl 0]
 
+/-- **Rejected Submit, then restart** (`WithPanicOnSubmitAfterShutdown(true)`: the rejected call panics, the caller
+recovers): the pool is started, shut down and complete; a `Submit` is rejected — the running check is one step under
+the read lock, the panic is raised by `Submit` itself *after* `increasePendingTasksIfRunning` has returned and released
+the lock, so in the model the call simply returns `rej` —; then the pool is started again, a task is accepted and run,
+and the second shutdown completes.  A rejection that kept the read lock would block this `Start` for ever. -/
+def scRejectRestart : Scenario where
+  name := "reject-restart"
+  p := { W := 1, cancel := false }
+  scripts := [[.start, .shutdown, .waitComplete, .submit leaf, .start, .submit leaf, .waitZero, .shutdown, .waitComplete]]
+  moves := startMoves 0 ++ dispPark ++ shutdownMoves 0 1 ++ dispExit ++ [.wk 0, .wk 0, .cl 0, .cl 0] ++
+    -- the rejected Submit: call, check (not running), return ; Start: startcall, spawn
+    [.cl 0, .cl 0, .cl 0] ++ startMoves 0 ++
+    -- the accepted Submit, dispatched and run ; WaitIsZero
+    runOne ++ [.cl 0, .cl 0] ++
+    dispPark ++ shutdownMoves 0 1 ++ dispExit ++ [.wk 0, .wk 0, .cl 0, .cl 0]
+
+/-- The same life cycle without the option: the rejected `Submit` returns silently.  Same model (the option only decides
+how the rejected call returns to its caller), same outcome. -/
+def scRejectRestartSilent : Scenario := { scRejectRestart with name := "reject-restart-silent" }
+
 def scenarios : List Scenario :=
-  [scWindow, scWindowBusy, scGap, scRestart, scStartRace, scHasWork, scForeign, scZeroWorkers]
+  [scWindow, scWindowBusy, scGap, scRestart, scStartRace, scHasWork, scForeign, scZeroWorkers, scRejectRestart,
+   scRejectRestartSilent]
 
 end Hive.WP
